@@ -284,6 +284,25 @@ class TrackedArray(np.ndarray):
         np.ndarray.flat.__set__(self, value)
 
     @property
+    def real(self):
+        return np.ndarray.real.__get__(self)
+
+    @real.setter
+    def real(self, value):
+        # `array.real = value` writes into the array itself
+        self._dirty_hash = True
+        np.ndarray.real.__set__(self, value)
+
+    @property
+    def imag(self):
+        return np.ndarray.imag.__get__(self)
+
+    @imag.setter
+    def imag(self, value):
+        self._dirty_hash = True
+        np.ndarray.imag.__set__(self, value)
+
+    @property
     def mutable(self):
         return self.flags["WRITEABLE"]
 
